@@ -61,6 +61,33 @@ Proof.
   exact (user_member i m7 m9 E9 pre li post n Eu Hn Hs Ho).
 Qed.
 
+(* a src= line that no later line supersedes: its name is a regular-file member of its own --
+   neither a hard link nor what a hard link refers to -- however many links the source inode has
+   and whichever of them are staged *)
+Theorem src_entry_regular i ms : stage_list i = Ok ms ->
+  forall pre li s post, user_script i = pre ++ OAdd li :: post -> li_src li = Some s ->
+  omits_none post (li_name li) -> ~ ops_name (i_tree i) post (li_name li) ->
+  (exists x, In x ms /\ m_name x = li_name li) /\
+  forall x, In x ms -> (m_name x = li_name li -> m_kind x = KReg) /\ (m_kind x = KLink -> m_link x <> li_name li).
+Proof.
+  intros H pre li s post Eu Hs Ho Hn. apply stage_list_inv in H as (mf & Hm & ->). apply stage_map_stages in Hm.
+  destruct Hm as [sel all m1 m2 m3 m4 m5 m7 m9 E_sel E1 E_all E2 E3 E4 E5 E7 E9 Ef]. subst mf.
+  pose proof (src_final i m7 m9 E9 pre li s post Eu Hs Ho Hn) as Hf. split.
+  - apply finalize_has. unfold mem. now rewrite Hf.
+  - intros x Hx. destruct (finalize_nogroup _ _ Hf x Hx) as [K1 K2]. split; [exact K1|]. intros Hk. now destruct (K2 Hk).
+Qed.
+(* the line syntax: what parse_line makes of src= *)
+Lemma src_parse_facts :
+  map parse_line [bs "file /etc/motd src=$$stageroot/usr/share/skel/motd mod=0600"; bs "file /etc/vimrc src=/etc/vim/vimrc";
+                  bs "file /etc/x src=/a src=/b"; bs "file /etc/* src=/a"; bs "symlink /etc/l src=/a"]
+  = [OAdd (MkLI TFile (bs "/etc/motd") false false false false (Some (SRoot (bs "/usr/share/skel/motd"))));
+     OAdd (MkLI TFile (bs "/etc/vimrc") false false false false (Some (SAbs (bs "/etc/vim/vimrc") None)));
+     OErr; OErr; OErr]
+  /\ resolve_op [(bs "/etc/vim/vimrc", NFile (Some 3))]
+       (OAdd (MkLI TFile (bs "/etc/vimrc") false false false false (Some (SAbs (bs "/etc/vim/vimrc") None))))
+     = OAdd (MkLI TFile (bs "/etc/vimrc") false false false false (Some (SAbs (bs "/etc/vim/vimrc") (Some (NFile (Some 3)))))).
+Proof. vm_compute. auto. Qed.
+
 (* membership, "only if": every member was recorded for a selected package, or is a symlink of
    the tree that RecoverMissingLinks looks at, or a VDB entry of a selected package, or a static
    /dev name, or named by a built-in or user line -- or it is a parent of such a name, or the root *)
